@@ -44,6 +44,9 @@ CHECKS = {
  'C19': ('differential testing across the four node types and eager vs deferred resolution, plus span-mutation metamorphic checks, over bounded-exhaustive and proptest inputs',
          'For every accepted input: the four load_from_str results agree structurally; MarkedYaml(Owned) ==/Hash/map-lookup are invariant under replacing every span and under shifting the document by a comment line; early_parse(false) + parse_representation_recursive equals the eager load on all four types with the documented return value; resolving resolved trees is the identity.',
          'Differential by design, paired with C07 (reference loader) and C08 (resolver oracle).', '5 C19'),
+ 'C20': ('model-based testing of six lookup paths against a reference predicate on generated mappings, plus eq => hash-eq over generated respelling pairs',
+         'Generated mappings with string, numeric, null, boolean, collection, unresolved and BadValue keys in five node spellings (Yaml with borrowed / owned Cow, YamlOwned, MarkedYaml, MarkedYamlOwned): as_mapping_get, contains_mapping_key, Index (panic iff absent), as_mapping_get_mut, IndexMut and explicit get agree with found(k) = some key is a resolved string equal to k; usize indexing vs get; equal nodes hash equally and find each other in a map.',
+         'Model predicate written from the property statement; panics observed with catch_unwind.', '5 C20'),
 }
 def main():
     checks = []
